@@ -12,6 +12,7 @@ RULE = ("histories: every sequence of <=D public mutations/queries on one Measur
         "single terms with each coefficient (also as bare PauliTerm), all-integer coefficients, small (1e-5) and large (1e6) coefficients; Bessel on/off. non-trivial = at least two distinct bitstrings among the shots and an operator with a "
         "non-constant term; distinct = (shots list, operator block)")
 RULE += ' Also: marked qubits given as tuple / set / frozenset / dict keys / PauliTerm.qubits / one-shot iterators and generators; bitstrings of 33..130 bits.'
+RULE += ' Round 6: ONE operator object through every history of <= 3 evaluations (values, parity tallies, frequencies through term.qubits, is_ising, simplify, str).'
 RULE += ' Round 5: marked qubits as one-shot iterators / generators / map objects.'
 ASSUMPTIONS = ["exact rational arithmetic (fractions.Fraction) as reference", "floating point results compared at 1e-12 relative to the natural scale of each entry (|c_i|, |c_i c_j|, |c_i c_j|/denominator)"]
 BOUNDS = {"quick": {"w<=2": "N<=4, <=3 terms", "w=3": "N<=3, <=2 terms"}, "thorough": {"w<=2": "N<=5, <=3 terms", "w=3": "N<=5, <=3 terms"}}
@@ -308,6 +309,71 @@ def history_case(case):
             "key": str(sorted(model)), "out": "N%d" % len(model)}
 
 
+OPH_TERMS = [[[2, 1], [0]], [[-1, 2], [0, 1]], [[3, 2], []], [[1, 1], [1, 2]], [[5, 4], [0, 1, 2]]]
+OPH_SHOTS = {"A": [(0, 1, 1), (1, 1, 0), (1, 0, 0), (1, 1, 0), (0, 0, 1)], "B": [(1, 1, 1), (0, 1, 0), (0, 1, 0)]}
+OPH_EVENTS = [["ev", "A"], ["ev", "B"], ["par", "A"], ["par", "B"], ["freq", "A"], ["ising", None], ["simplify", None], ["str", None]]
+
+
+def operator_history_case(case):
+    """{'kind': 'sum'|'sum2'|'term', 'hist': [events]}: ONE operator object serves a history of evaluations (expectation values / parity tallies on two shot sets, frequencies
+    through its terms' qubit sets, is_ising, simplify, str): every answer is the statistic of the operator AS BUILT on the shots asked for - the operator carries nothing over"""
+    from orquestra.quantum.measurements import Measurements, get_expectation_value_from_frequencies, get_parities_from_measurements
+    from orquestra.quantum.operators import PauliTerm, PauliSum
+    desc = {"sum": OPH_TERMS[:4], "sum2": [OPH_TERMS[4], OPH_TERMS[1], OPH_TERMS[0]], "term": [OPH_TERMS[4]]}[case["kind"]]
+    terms = [PauliTerm({q: "Z" for q in qs} if qs else "I0", c[0] / c[1]) for c, qs in desc]
+    op = PauliSum(terms) if case["kind"] != "term" else terms[0]
+    k = 0
+    for e in case["hist"]:
+        k += 1
+        if e[0] in ("ev", "par", "freq"):
+            shots = OPH_SHOTS[e[1]]
+            N = len(shots)
+        if e[0] == "ev":
+            ev = Measurements(list(shots)).get_expectation_values(op)
+            cs = [F(c[0], c[1]) for c, _ in desc]
+            means = [cs[i] * rs.mean([F(rs.eig(s_, qs)) for s_ in shots]) for i, (_, qs) in enumerate(desc)]
+            if len(np.asarray(ev.values)) != len(means) or not all(close(a, float(b)) for a, b in zip(np.asarray(ev.values), means)):
+                return {"ok": False, "msg": "expectation values on shot set %s at step %d of %s" % (e[1], k, case["hist"]), "expected": [str(x) for x in means], "observed": str(np.asarray(ev.values).tolist()),
+                        "sig": "ophist:values", "ops": k}
+            for i, (_, qi) in enumerate(desc):
+                for j, (_, qj) in enumerate(desc):
+                    c = cs[i] * cs[j] * rs.mean([F(rs.eig(s_, qi) * rs.eig(s_, qj)) for s_ in shots])
+                    if not close(ev.correlations[0][i, j], float(c)):
+                        return {"ok": False, "msg": "correlation [%d,%d] on shot set %s at step %d of %s" % (i, j, e[1], k, case["hist"]), "expected": str(c), "observed": str(ev.correlations[0][i, j]),
+                                "sig": "ophist:correlations", "ops": k}
+        elif e[0] == "par":
+            pr = get_parities_from_measurements(list(shots), op)
+            exp_vals = [[sum(1 for s_ in shots if rs.eig(s_, qs) == 1), sum(1 for s_ in shots if rs.eig(s_, qs) == -1)] for _, qs in desc]
+            if np.asarray(pr.values).tolist() != exp_vals:
+                return {"ok": False, "msg": "parity tallies on shot set %s at step %d of %s" % (e[1], k, case["hist"]), "expected": exp_vals, "observed": np.asarray(pr.values).tolist(), "sig": "ophist:parities", "ops": k}
+            C = np.asarray(pr.correlations[0])
+            for i, (_, qi) in enumerate(desc):
+                for j, (_, qj) in enumerate(desc):
+                    evn = sum(1 for s_ in shots if rs.eig(s_, qi) * rs.eig(s_, qj) == 1)
+                    if [int(C[i, j, 0]), int(C[i, j, 1])] != [evn, N - evn]:
+                        return {"ok": False, "msg": "pair parity tallies [%d,%d] on shot set %s at step %d of %s" % (i, j, e[1], k, case["hist"]), "expected": [evn, N - evn], "observed": C[i, j].tolist(),
+                                "sig": "ophist:pair-parities", "ops": k}
+        elif e[0] == "freq":
+            counts = Measurements(list(shots)).get_counts()
+            for t_, (_, qs) in zip(terms, desc):
+                got = get_expectation_value_from_frequencies(t_.qubits, dict(counts))
+                exp = rs.mean([F(rs.eig(s_, qs)) for s_ in shots])
+                if abs(got - float(exp)) > TOL:
+                    return {"ok": False, "msg": "expectation from frequencies on term.qubits = %s at step %d of %s" % (sorted(t_.qubits), k, case["hist"]), "expected": str(exp), "observed": got, "sig": "ophist:frequencies", "ops": k}
+        elif e[0] == "ising":
+            if not op.is_ising:
+                return {"ok": False, "msg": "is_ising turned False", "sig": "ophist:is_ising", "ops": k}
+        elif e[0] == "simplify":
+            if case["kind"] != "term":
+                op.simplify()
+        elif e[0] == "str":
+            str(op), repr(op)
+        for t_, (_, qs) in zip(terms, desc):
+            if set(t_.qubits) != set(qs):
+                return {"ok": False, "msg": "after step %d of %s a term of the operator reports the qubits %s, it was built on %s" % (k, case["hist"], sorted(t_.qubits), qs), "sig": "ophist:qubits", "ops": k}
+    return {"ok": True, "nt": len(case["hist"]) >= 2, "ops": k, "out": case["kind"]}
+
+
 def wide_shots_case(case):
     """{'w': width, 'ones': [[positions set to 1] per distinct outcome], 'mult': [multiplicity]}: registers wider than a machine word: counts, distribution,
     expectation values of Z_q for the highest qubits, parities"""
@@ -342,7 +408,7 @@ def wide_shots_case(case):
     return {"ok": True, "nt": len(set(shots)) >= 2, "ops": k, "out": "w%d" % w}
 
 
-FUNCS = {"wide_shots": wide_shots_case, "dict_histories": dict_history_case, "histories": history_case, "statistics": stats_case, "counts": counts_case, "nonising": nonising_case}
+FUNCS = {"operator_histories": operator_history_case, "wide_shots": wide_shots_case, "dict_histories": dict_history_case, "histories": history_case, "statistics": stats_case, "counts": counts_case, "nonising": nonising_case}
 
 
 def multisets(w, Nmax):
@@ -388,4 +454,8 @@ def run(run):
                         "every query must report the statistics of the current shots" % D))
     dh = [{"hist": [DICT_EVENTS[i] for i in combo]} for d in range(0, D + 1) for combo in itertools.product(range(len(DICT_EVENTS)), repeat=d)]
     secs.append(Section("dict_histories", dh, dict_history_case, desc="every history of <=%d in-place updates / queries on one histogram dict passed to get_expectation_value_from_frequencies" % D))
+    oh = [{"kind": kd, "hist": [OPH_EVENTS[i] for i in combo]} for kd in ("sum", "sum2", "term") for d in (1, 2, 3) for combo in itertools.product(range(len(OPH_EVENTS)), repeat=d)
+          if d < 3 or thorough or (combo[0] in (2, 3, 4, 0) and combo[2] in (0, 1, 2, 3))]
+    secs.append(Section("operator_histories", oh, operator_history_case, desc="ONE operator object through every history of <= 3 evaluations (expectation values / parity tallies on two shot sets, frequencies via "
+                        "term.qubits, is_ising, simplify, str): every answer belongs to the operator as built and the shots asked for"))
     run.run_sections(secs)
